@@ -33,6 +33,60 @@ WRAPPERS = {'sets_of_k_rdm': 'sets_k_fold_rdm', 'sets_of_k_pattern': 'sets_k_fol
 SELECTORS = ('subset', 'subsample', 'subset_pattern', 'subsample_pattern')
 
 
+def factor_pairing(ctx, obs, rule='FACTOR'):
+    """Set generators that fold over two factors keep them apart: a quantity derived from the RDM grouping (rdm_descriptor) is
+    combined (%, //, /, *, comparison, range) only with the RDM fold count (k_rdm / n_rdm), a quantity derived from the pattern
+    grouping only with k_pattern / n_pattern.  Lineage comes from the dependence engine (data sources of the two operands); operands
+    that descend from both or neither factor are not judged."""
+    from ..rules.common import expr_sources
+    prog = ctx.prog
+    pairs = (('rdm_descriptor', ('k_rdm', 'n_rdm')), ('pattern_descriptor', ('k_pattern', 'n_pattern')))
+    n = 0
+    for q, f in sorted(prog.functions.items()):
+        if not q.startswith('inference.crossvalsets.'):
+            continue
+        ps = set(f.params)
+        if not all(d in ps and (set(ks) & ps) for d, ks in pairs):
+            continue
+        r = ctx.dep.result(q)
+
+        def factor(e, kind):
+            t = expr_sources(r, e)
+            has = {}
+            for d, ks in pairs:
+                names = (d,) if kind == 'group' else ks
+                has[d] = any(('P:' + nm) in t for nm in names)
+            on = [d for d in has if has[d]]
+            return on[0] if len(on) == 1 else None
+        for e in ast.walk(f.node):
+            ops = []
+            if isinstance(e, ast.BinOp) and isinstance(e.op, (ast.Mod, ast.FloorDiv, ast.Div, ast.Mult)):
+                ops = [(e.left, e.right), (e.right, e.left)]
+            elif isinstance(e, ast.Compare) and len(e.ops) == 1:
+                ops = [(e.left, e.comparators[0]), (e.comparators[0], e.left)]
+            for a, b in ops:
+                fa, fb = factor(a, 'group'), factor(b, 'count')
+                # the count side is the fold count of ONE factor (its default may be derived from the grouping of that same factor);
+                # the other side carries no fold count at all
+                gb = factor(b, 'group')
+                tb = expr_sources(r, b)
+                both_groups = all(('P:' + d) in tb for d, _ in pairs)
+                ta = expr_sources(r, a)
+                a_has_count = any(('P:' + k) in ta for _, ks in pairs for k in ks)
+                if fa is None or fb is None or both_groups or (gb is not None and gb != fb) or a_has_count:
+                    continue
+                n += 1
+                con = 'a quantity of one factor is combined with the fold count of the same factor'
+                if fa == fb:
+                    obs.ok(rule, q, con, f'`{norm(e)[:60]}`', where(prog, f, e))
+                else:
+                    obs.bad(rule, q, con, f'`{norm(e)[:70]}` combines a quantity derived from {fa} with the fold count of '
+                            f'{fb.replace("_descriptor", "")}s: remainders / fold sizes of the two factors are mixed up whenever the two '
+                            f'counts differ', where(prog, f, e))
+                break
+    obs.analysed['factor_pairings'] = n
+
+
 def run(ctx, obs):
     from .c10 import keep_index
     keep_index(ctx, obs)
@@ -41,6 +95,9 @@ def run(ctx, obs):
         kfold_partition(ctx, obs, 'inference.crossvalsets.' + _q)
     from ..rules import sweeps
     sweeps.run(ctx, obs, 'C05')
+    from ..rules import order as _ord
+    _ord.report(ctx, obs, ['inference.crossvalsets.'])
+    factor_pairing(ctx, obs)
     prog, dep = ctx.prog, ctx.dep
     # 1. SIG over the whole non-vis package
     n = sig_conformance(ctx, obs, [''], report_ok=False)
